@@ -442,7 +442,7 @@ Fixpoint resolve_field (fuel : nat) (ptype : string) (source : pyval) (ppath : l
                   let tr :=
                     match type_resolver_kind U n ptype (fd_name fd) with
                     | TRDefault => (URet (default_type_resolver v), s0)
-                    | TRCustom => (type_resolver U lpath n v, add_call (CTypeResolver lpath n v) s0)
+                    | TRCustom => (type_resolver U path n v, add_call (CTypeResolver path n v) s0)
                     end in
                   match tr with
                   | (URaise msg _ ext, s1) => (OExc [user_raise msg ext], s1)
